@@ -56,7 +56,9 @@ func (c *PContacts) More() bool {
 
 // Reset re-initializes the parsed values.
 func (c *PContacts) Reset() {
-	for i := 0; i < c.VNo(); i++ {
+	// reset all the values, not only the first VNo(): Vals[N] might contain
+	// a partially parsed value (parsing abandoned while waiting for more bytes)
+	for i := 0; i < len(c.Vals); i++ {
 		c.Vals[i].Reset()
 	}
 	v := c.Vals
